@@ -186,6 +186,14 @@ static void op_zadd_ui(int c, char **v) { (void)c; do_zui(v, mpz_add_ui); }
 static void op_zsub_ui(int c, char **v) { (void)c; do_zui(v, mpz_sub_ui); }
 static void zuisub(mpz_ptr w, mpz_srcptr u, mpir_ui v) { mpz_ui_sub(w, v, u); }
 static void op_zui_sub(int c, char **v) { (void)c; do_zui(v, zuisub); }
+/* mpz_mul_2exp_big U CNT : see ApiBasic.v */
+static void op_zmul_2exp_big(int argc, char **argv)
+{ (void)argc; mpz_t u, r, t; parse_z(argv[1], u); mpir_ui cnt = arg_ul(argv[2]); mpz_init(r); mpz_init(t);
+  mpz_mul_2exp(r, u, cnt);
+  outul(mpz_sizeinbase(r, 2)); if (mpz_sgn(r)) outul(mpz_scan1(r, 0)); else outl(-1); outl(mpz_sgn(r));
+  mpz_tdiv_q_2exp(t, r, cnt); outl(mpz_cmp(t, u) == 0);
+  if (!z_wf(r)) outs("BADFORMAT");
+  mpz_clear(u); mpz_clear(r); mpz_clear(t); }
 static void zmul2exp(mpz_ptr w, mpz_srcptr u, mpir_ui v) { mpz_mul_2exp(w, u, v); }
 static void op_zmul_2exp(int c, char **v) { (void)c; do_zui(v, zmul2exp); }
 
@@ -216,7 +224,7 @@ const op_t ops_basic[] = {
   {"mpn_lshift", op_lshift}, {"mpn_rshift", op_rshift}, {"mpn_copyi", op_copyi}, {"mpn_copyd", op_copyd},
   {"mpn_zero", op_zero}, {"mpn_cmp", op_cmp}, {"mpn_zero_p", op_zero_p},
   {"mpz_add", op_zadd}, {"mpz_sub", op_zsub}, {"mpz_add_ui", op_zadd_ui}, {"mpz_sub_ui", op_zsub_ui},
-  {"mpz_ui_sub", op_zui_sub}, {"mpz_mul_2exp", op_zmul_2exp}, {"mpz_neg", op_zneg}, {"mpz_abs", op_zabs},
+  {"mpz_ui_sub", op_zui_sub}, {"mpz_mul_2exp", op_zmul_2exp}, {"mpz_mul_2exp_big", op_zmul_2exp_big}, {"mpz_neg", op_zneg}, {"mpz_abs", op_zabs},
   {"mpz_set", op_zset}, {"mpz_swap", op_zswap},
   {NULL, NULL}
 };
